@@ -38,6 +38,7 @@ def justified (a b : DB) : Stmt → Bool
   | .createIndex t n .. => a.idx t n != b.idx t n
   | .dropIndex t n => a.idx t n != b.idx t n
   | .commentOn t c _ => !optColEquiv (a.col t c) (b.col t c)
+  | .alterType t c _ | .setDefault t c _ | .dropNotNull t c => !optColEquiv (a.col t c) (b.col t c)
 
 def hasPosition : Stmt → Bool
   | .addColumn _ _ .none => false
